@@ -23,6 +23,16 @@ restates the advantage / return theorems over the generated definitions (`C17_so
 If the translator rejects the source or those proofs stop checking, that is a gate problem naming the
 broken equality; the gae+rows suites below (recorded advantages/returns vs the model and vs the recursion
 recomputed with Fractions, no-leak perturbation) then supply the failing rollout if there is one.
+`py2lean_flatten.py` executes the tensor RE-LAYOUT code symbolically (stack_experiences, is_vectorized_experiences,
+flatten_experiences, get_experiences_samples, vectorize_experiences_by_agent, concatenate_experiences_into_batches and
+the statements of PPO.learn / IPPO.assemble_shared_inputs / IPPO._learn_individual up to the minibatch indexing) into
+row index maps `lean/Gen/FlattenGen.lean`; `Proofs/FlattenGenEq.lean` proves them equal to `ppoUnflat` / `ippoUnflat`
+(the inverses of the model's flatten maps) and `Props/C17.lean` restates alignment / bijection / minibatch theorems over
+them (`C17_source_translation_flatten_*`).  Failing inputs for a re-layout change come from the rows suites, from the
+minibatches of the real learn() (spy on `get_experiences_samples`: every one of the six gathered tensors must be
+rows idx of the recorded flattened tensor, an epoch uses every row once; provenance diffed with `gae ppobatch /
+ippobatch`) and from the `relayout-helpers` suite (the helpers driven directly with Dict / Tuple observations and index
+vectors with repeats).
 """
 from __future__ import annotations
 
@@ -411,6 +421,75 @@ class ImplRaised(Exception):
     pass
 
 
+LAST_MINIBATCHES: list = []      # filled by run_learn: the minibatches the real learn() gathered (see minibatch_check)
+ROW_NAMES = ("states", "actions", "log_probs", "advantages", "returns", "values")
+
+
+def _members(x):
+    if isinstance(x, dict):
+        return [(str(k), v) for k, v in x.items()]
+    if isinstance(x, (tuple, list)):
+        return [(str(k), v) for k, v in enumerate(x)]
+    return [("", x)]
+
+
+def minibatch_check(case, recs, log):
+    """oracle + model lines for the minibatches the real learn() gathered (`get_experiences_samples`, spied on):
+    row j of EVERY one of the six minibatch tensors (every Dict / Tuple member) is row idx[j] of the flattened
+    tensor the recorder saw, and the index vectors of an epoch use every row exactly once; the provenance of the
+    minibatch's old log-probs is diffed with `gae ppobatch / ippobatch` (Model: `gather`)."""
+    problems, impl, ops = [], [], []
+    grp = groups_of(case)
+    T, E, ippo = case["T"], case["E"], case["algo"] == "IPPO"
+    seen: dict[int, list] = {}
+    for gi, idx, out in log:
+        if not 0 <= gi < len(grp):
+            continue
+        gid, members = grp[gi]
+        rows = recs[gid][1]
+        A = len(members)
+        N = A * T * E
+        bad = None
+        if len(out) != 6:
+            bad = f"the minibatch indexing returns {len(out)} tensors"
+        idx_l = [int(i) for i in np.asarray(idx).reshape(-1).tolist()]
+        for name, got in zip(ROW_NAMES, out):
+            if bad:
+                break
+            for (k, g), (_, r) in zip(_members(got), _members(rows[name])):
+                g_, r_ = torch.as_tensor(g), torch.as_tensor(r)
+                want = r_[torch.as_tensor(idx_l, dtype=torch.long)]
+                if tuple(g_.shape) != tuple(want.shape) or not torch.equal(g_.to(want.dtype), want):
+                    j = next((j for j in range(min(len(g_), len(want))) if not torch.equal(g_[j].to(want.dtype), want[j])), 0) \
+                        if g_.dim() and want.dim() else 0
+                    bad = (f"row {j} of the minibatch's {name}{'[' + k + ']' if k else ''} is not row idx[{j}] = "
+                           f"{idx_l[j] if j < len(idx_l) else '?'} of the flattened {name} (index vector {idx_l[:12]}…, "
+                           f"shapes {tuple(g_.shape)} vs {tuple(want.shape)}): the six tensors of a minibatch do not take the same rows")
+                    break
+        if bad:
+            problems.append(f"[minibatch] group {gid}: {bad}")
+            continue
+        seen.setdefault(gi, []).extend(idx_l)
+        if len([1 for g2, _, _ in log if g2 == gi]) and len(impl) < 8 and all(0 <= i < N for i in idx_l):
+            lp = torch.as_tensor(out[2]).reshape(len(idx_l), -1)[:, 0].tolist()
+            gl = {a: i for i, a in enumerate(case["ids"])}
+            inv = {gl[a]: k for k, a in enumerate(members)}
+            tags_ = []
+            for x in lp:
+                c = round(-x * 64 - 1)
+                q = uncode(int(c)) if abs(-x * 64 - 1 - c) < 1e-9 and c >= 0 else None
+                tags_.append("?" if q is None or q[0] not in inv else tag(inv[q[0]], q[1], q[2], ippo))
+            impl.append(" ".join(tags_))
+            ops.append((f"gae ippobatch {A} {T} {E} " if ippo else f"gae ppobatch {T} {E} ") + " ".join(map(str, idx_l)))
+    for gi, used in seen.items():
+        gid, members = grp[gi]
+        N = len(members) * T * E
+        if len(used) % N != 0 or any(sorted(used[k:k + N]) != list(range(N)) for k in range(0, len(used), N)):
+            problems.append(f"[minibatch] group {gid}: the minibatches of an epoch do not use every one of the {N} training "
+                            f"rows exactly once (index vectors {used[:24]}…)")
+    return problems, impl, ops
+
+
 def run_learn(case, *, next_shift: float = 0.0):
     """build a fresh agent, run the real learn, return (records by group, critic values, rollout-path values)"""
     vh = hooks()
@@ -420,11 +499,26 @@ def run_learn(case, *, next_shift: float = 0.0):
     boot["__hp__"] = (Fr(float(agent.gamma)), Fr(float(agent.gae_lambda)))     # the agent's CURRENT values
     vh.clear()
     random.seed(case["seed"]), np.random.seed(case["seed"] % (2 ** 32)), torch.manual_seed(case["seed"])
+    # spy on the minibatch indexing of the real learn(): (group index, index vector, the six gathered tensors)
+    mod = sys.modules.get(type(agent).__module__)
+    orig = getattr(mod, "get_experiences_samples", None)
+    del LAST_MINIBATCHES[:]
+    if callable(orig):
+        def spy(idx, *exps):
+            out = orig(idx, *exps)
+            pre_ = "ppo.rows" if case["algo"] == "PPO" else "ippo.rows"
+            LAST_MINIBATCHES.append((sum(1 for t, _ in vh.RECORDS if t == pre_) - 1, np.array(idx).copy(),
+                                     vh._copy(tuple(out)) if hasattr(vh, "_copy") else copy.deepcopy(tuple(out))))
+            return out
+        mod.get_experiences_samples = spy
     try:
         agent.learn(roll)
     except Exception as e:                                  # noqa: BLE001 - the implementation raised
         vh.clear()
         raise ImplRaised(f"{type(e).__name__}: {str(e)[:200]}") from None
+    finally:
+        if callable(orig):
+            mod.get_experiences_samples = orig
     recs = list(vh.RECORDS)
     vh.clear()
     pre = "ppo" if case["algo"] == "PPO" else "ippo"
@@ -763,6 +857,13 @@ def one_case(chk: Check, case, rng_leak: random.Random | None = None):
         out["stats"] = s or out["stats"]
         if s.get("cmp"):
             out["tags"].append(s["cmp"])
+    mb_log = list(LAST_MINIBATCHES)
+    p, i2, o2 = minibatch_check(case, recs, mb_log)
+    out["problems"] += p
+    impl += i2
+    ops += o2
+    numeric += [False] * len(i2)
+    out["tags"].append("minibatches-spied" if mb_log else "minibatch-spy-absent")
     model = chk.driver.run(["reset"] + ops)[1:]
     chk.corr["model_lines"] += len(ops)
     out["impl"], out["model"] = impl, model
@@ -1565,6 +1666,111 @@ def run_loop_suite(chk: Check, rng: random.Random, seen_kinds: set, corpus=()):
 
 
 # ----------------------------------------------------------------------------- run
+# ----------------------------------------------------------------------------- re-layout helpers, driven directly
+def gen_relayout_case(rng: random.Random):
+    T, E = rng.choice([1, 2, 3, 4, 5]), rng.choice([1, 2, 3, 4])
+    N = T * E
+    u = rng.random()
+    if u < 0.3:
+        idx = rng.sample(range(N), N)                                  # an epoch's permutation
+    elif u < 0.6:
+        idx = [rng.randrange(N) for _ in range(rng.randint(1, 2 * N))]   # repeats, any length
+    else:
+        idx = rng.sample(range(N), rng.randint(1, N))                  # a minibatch
+    return {"suite": "relayout", "T": T, "E": E, "okind": rng.choice(["box", "dict", "tuple"]),
+            "akind": rng.choice(["box", "disc"]), "idx": idx, "seed": rng.randrange(2 ** 31)}
+
+
+def run_relayout_case(chk: Check, c):
+    """the real stack_experiences -> is_vectorized_experiences -> flatten_experiences -> get_experiences_samples on a
+    provenance-coded rollout (exactly the calls PPO.learn makes on its six tensors), any index vector; every member
+    of every one of the six minibatch tensors is decoded and diffed with `gae ppobatch` (Model: gather of ppoFlatten)"""
+    from agilerl.utils.algo_utils import (flatten_experiences, get_experiences_samples, is_vectorized_experiences,
+                                          stack_experiences)
+    T, E, idx = c["T"], c["E"], c["idx"]
+    cd = lambda t, e: t * 8 + e + 1
+    S, A, L = [], [], []
+    for t in range(T):
+        box = np.array([[cd(t, e) * 4 + f for f in range(3)] for e in range(E)], dtype=np.float32)
+        disc = np.array([cd(t, e) for e in range(E)], dtype=np.int64)
+        S.append(box if c["okind"] == "box" else {"a": box, "b": disc} if c["okind"] == "dict" else (box, disc))
+        A.append(np.array([[cd(t, e) * 4 + f for f in range(2)] for e in range(E)], dtype=np.float32)
+                 if c["akind"] == "box" else disc.copy())
+        L.append(np.array([cd(t, e) for e in range(E)], dtype=np.float32))
+    out = {"diff": None, "problems": [], "impl": [], "model": []}
+    try:
+        st, ac, lp = stack_experiences(S, A, L)
+        rest = tuple(torch.tensor([[float(cd(t, e) + k * 100) for e in range(E)] for t in range(T)]) for k in (1, 2, 3))
+        exps = (st, ac, lp) + rest
+        if is_vectorized_experiences(*exps):
+            exps = flatten_experiences(*exps)
+        batch = get_experiences_samples(np.array(idx), *exps)
+    except Exception as e:                                  # noqa: BLE001
+        out["problems"].append(f"[relayout] the re-layout helpers raised on a legal rollout (T={T}, envs={E}, "
+                               f"obs {c['okind']}, index vector {idx}): {type(e).__name__}: {str(e)[:160]}")
+        return out
+    lines, names = [], []
+    for k, (name, x) in enumerate(zip(ROW_NAMES, batch)):
+        for mk, m in _members(x):
+            m = torch.as_tensor(m).reshape(len(idx), -1).to(torch.float64)
+            tags_ = []
+            for j in range(len(idx)):
+                row = m[j].tolist()
+                if len(row) > 1:                            # a feature vector: code*4 + f in place f
+                    q = row[0] / 4
+                    ok = all(v == row[0] + f for f, v in enumerate(row))
+                else:
+                    q, ok = row[0] - (k - 2) * 100 * (k >= 3), True
+                q = int(q) - 1 if ok and q == int(q) else -1
+                tags_.append(f"{q // 8}.{q % 8}" if 0 <= q and q // 8 < T and q % 8 < E else "?")
+            lines.append(" ".join(tags_))
+            names.append(name + (f"[{mk}]" if mk else ""))
+    out["impl"] = lines
+    out["model"] = chk.driver.run(["reset"] + [f"gae ppobatch {T} {E} " + " ".join(map(str, idx))] * len(lines))[1:]
+    chk.corr["model_lines"] += len(lines)
+    # oracle (the statement itself): row j of all six tensors / members belongs to ONE sample, the one flattened row idx[j] holds
+    for j in range(len(idx)):
+        got = {ln.split()[j] for ln in lines}
+        if len(got) != 1 or "?" in got:
+            out["problems"].append(
+                f"[relayout] row {j} of the minibatch gathered by index vector {idx} mixes samples: "
+                + ", ".join(f"{nm} -> {ln.split()[j]}" for nm, ln in zip(names, lines))
+                + f" (steps {T}, envs {E}, observation kind {c['okind']})")
+            break
+    if len(lines) != len(out["model"]) or any(a != b for a, b in zip(lines, out["model"])):
+        out["diff"] = next((i for i, (a, b) in enumerate(zip(lines, out["model"])) if a != b), 0)
+    return out
+
+
+def run_relayout_suite(chk: Check, rng: random.Random, corpus=()):
+    cases = list(corpus) + [{"suite": "relayout", "T": 2, "E": 3, "okind": "dict", "akind": "disc", "idx": [5, 0, 5, 2], "seed": 1},
+                            {"suite": "relayout", "T": 3, "E": 2, "okind": "tuple", "akind": "box", "idx": [4, 1, 3, 0, 5, 2], "seed": 2},
+                            {"suite": "relayout", "T": 4, "E": 1, "okind": "box", "akind": "disc", "idx": [3, 3, 0], "seed": 3}]
+    cases += [gen_relayout_case(rng) for _ in range(60 if chk.tier == "quick" else 600)]
+    bad = 0
+    reported = False
+    for c in cases:
+        o = run_relayout_case(chk, c)
+        chk.case(c, nontrivial=c["T"] > 1 and c["E"] > 1, tags=["relayout", f"relayout-obs-{c['okind']}",
+                 "relayout-idx-" + ("perm" if sorted(c["idx"]) == list(range(c["T"] * c["E"])) else
+                                    "repeats" if len(set(c["idx"])) < len(c["idx"]) else "subset")])
+        if not o["problems"] and o["diff"] is None:
+            continue
+        bad += o["diff"] is not None
+        if reported:
+            continue
+        reported = True
+        def fails(ix, c=c, by=bool(o["problems"])):
+            o2 = run_relayout_case(chk, {**c, "idx": ix})
+            return bool(o2["problems"]) if by else (o2["diff"] is not None and not o2["problems"])
+        small = {**c, "idx": ddmin(list(c["idx"]), fails) or c["idx"]}
+        o2 = run_relayout_case(chk, small)
+        chk.violation((o2["problems"] or o["problems"] or ["[relayout] model/implementation diff on the minibatch rows"])[0],
+                      {"case": small, "oracle_problems": o2["problems"], "impl": o2["impl"], "model": o2["model"]},
+                      no_input=not (o2["problems"] or o["problems"]))
+    chk.suite("relayout-helpers", len(cases), bad)
+
+
 def structured_cases(rng: random.Random, tier: str):
     cases = []
     # a fixed skeleton of edge shapes …
@@ -1658,17 +1864,19 @@ def run(chk: Check) -> None:
         "which also perturbs all other columns)",
         "float32/64 arithmetic is exact on the dyadic cases (every intermediate is checked to be representable), "
         f"relative tolerance {TOL} otherwise",
-        "minibatch sampling (get_experiences_samples) indexes all six tensors with the same index array",
+        "the minibatch spy replaces the module-level name get_experiences_samples of agilerl.algorithms.{ppo,ippo} "
+        "during learn(); a tree that indexes in another way is only covered by the rows suites and the translation",
         "loop suite: dones[0] of a rollout is not checked (the loops always store zeros there and the estimates never "
         "read it); the scripted environments auto-reset like gymnasium vector envs (the observation returned with an "
         "episode end is the first one of the next episode)",
     ]
     cases = []
     corpus_loop = []
+    corpus_relayout = []
     for f in sorted((ROOT / "corpus" / "C17").glob("*.json")):
         c = json.loads(f.read_text())
         c = c.get("case", c)
-        (corpus_loop if c.get("suite") == "loop" else cases).append(c)
+        (corpus_loop if c.get("suite") == "loop" else corpus_relayout if c.get("suite") == "relayout" else cases).append(c)
     cases += structured_cases(rng, chk.tier)
     n = {"PPO": [0, 0], "IPPO": [0, 0]}
     single_step_reported = False
@@ -1702,6 +1910,7 @@ def run(chk: Check) -> None:
     chk.suite("gae+rows-ppo", n["PPO"][0], n["PPO"][1])
     chk.suite("gae+rows-ippo", n["IPPO"][0], n["IPPO"][1])
     run_loop_suite(chk, rng, seen_kinds, corpus_loop)
+    run_relayout_suite(chk, random.Random(rng.randrange(2 ** 31)), corpus_relayout)
     probe_bootstrap(chk, rng, 2 if chk.tier == "quick" else 5)
     if chk.tier == "thorough":
         selftest(chk)
@@ -1712,9 +1921,21 @@ def pre_gate(chk: Check) -> None:
     and re-check `generated = model` (Proofs/GAEGenEq.lean) and the theorems over the generated
     definitions (Props/C17.lean)."""
     import common
+    import py2lean_flatten
     import py2lean_gae
+    # both generated files are imported by Props/C17.lean: bring the second one up to date with the tree under test
+    # before the first gate builds Props.C17 (a file left by a run on another tree must not fail the first gate)
+    try:
+        py2lean_flatten.write_if_changed(py2lean_flatten.translate(common.REPO)[0], common.LEAN_DIR / "Gen/FlattenGen.lean")
+    except py2lean_flatten.Unsupported:
+        pass                                                # reported by the second gate below
     common.translation_gate(chk, py2lean_gae, "Gen/GAEGen.lean", ["Gen.GAEGen", "Proofs.GAEGenEq", "Props.C17"],
                             "advantage-estimation loop of PPO.learn and IPPO._learn_individual")
+    # the tensor re-layout between the rollout lists and the minibatch loop, executed symbolically
+    common.translation_gate(chk, py2lean_flatten, "Gen/FlattenGen.lean",
+                            ["Gen.FlattenGen", "Proofs.FlattenGenEq", "Props.C17"],
+                            "stack / flatten / concatenate / get_experiences_samples re-layout of PPO.learn and "
+                            "IPPO._learn_individual: row index maps")
 
 
 # ----------------------------------------------------------------------------- self-test (seeded faults)
@@ -2032,6 +2253,18 @@ def replay(chk: Check, path: str) -> int:
     case = c.get("case", c)
     hooks()
     torch.set_num_threads(1)
+    if case.get("suite") == "relayout":
+        o = run_relayout_case(chk, case)
+        print(json.dumps({"case": case, "oracle_problems": o["problems"], "diff_at": o["diff"], "impl": o["impl"],
+                          "model": o["model"]}, indent=1))
+        if o["problems"]:
+            print(f"VIOLATION property=C17 replay={path}")
+            print(f"  -> {o['problems'][0]}"[:600])
+            return 1
+        if o["diff"] is not None:
+            print(f"VIOLATION property=C17 replay={path} no-failing-input-found")
+            return 1
+        return 0
     if case.get("suite") == "loop":
         o = run_loop_case(chk, case)
         print(json.dumps({"case": {k: case[k] for k in ("suite", "algo", "vec", "T", "E", "R", "ids", "gamma", "lam")},
